@@ -1073,7 +1073,7 @@ package pokertable
 //@ spec LabelsBounded(te) = forall(i, 0, 10, i < len(PS(te)) ==> 0 <= len(PS(te)[i].Positions) && len(PS(te)[i].Positions) <= 10)
 
 //@ func (*tableEngine).openGame
-//@   property C05 C07 C12
+//@   property C02 C05 C06 C07 C12
 //@   returns nt, err
 //@   config M 2..10 quick 2..5 : te.table.Meta.TableMaxSeatCount = M, te.sm.MaxSeat = M, len(te.sm.SeatData) = M
 //@   requires TableWF(te) && Coupled(te) && oldTable == te.table && St(te).BlindState != nil && St(te).GameState == nil && LabelsBounded(te)
